@@ -1,6 +1,7 @@
 """C05 - bin-covering results are valid covers that waste less than one bin."""
 import random
 from runtime import harness as H
+from props import _ded as D
 from runtime import t3_pack as T
 from props._domains import cover_inputs
 
@@ -17,5 +18,7 @@ def t3(rep, tier, seed):
 
 def run(rep, tier, seed):
     rep.level = "exploration"
-    rep.assume("A1", "A4", "A6", "A8")
+    rep.assume("A1", "A2", "A4", "A5", "A6", "A8")
+    D.run_contracts(rep, "C05", D.COVER, tier, with_lemmas=True)
     t3(rep, tier, seed)
+    D.link_falsifier(rep)
